@@ -184,6 +184,14 @@ def _run_case_first_call(case):
             rec.check(item.polygon is not None and item.polygon.equals(polys[int(item.linear_index)]),
                       f"{fp}/polygon-mismatch", f"polygon reported for linear index {int(item.linear_index)}",
                       polys[int(item.linear_index)].wkt, None if item.polygon is None else item.polygon.wkt)
+        # the same position with a third ordinate (a GPS fix with elevation): the horizontal answer is the same
+        try:
+            item3 = lib(convention.get_index_for_point, Point(x, y, 12.5))
+            rec.check((item3 is None) == (item is None) and (item is None or int(item3.linear_index) == int(item.linear_index)),
+                      f"{fp}/third-ordinate", f"point ({x}, {y}, 12.5)", None if item is None else int(item.linear_index),
+                      None if item3 is None else int(item3.linear_index))
+        except LibraryRaised as err:
+            rec.check(False, f"{fp}/third-ordinate", f"get_index_for_point of a point with a third ordinate raised", 'same as without', str(err))
         # select_point agrees
         try:
             selected = lib(convention.select_point, pt)
